@@ -20,6 +20,10 @@ CATALOGUE = [
     dict(name="GF5", p=5, d=1, mc=(0,)), dict(name="GF7", p=7, d=1, mc=(0,)),
     dict(name="GF11", p=11, d=1, mc=(0,)), dict(name="GF13", p=13, d=1, mc=(0,)),
     dict(name="GF31", p=31, d=1, mc=(0,)), dict(name="GF251", p=251, d=1, mc=(0,), tier="thorough"),
+    # defined like the library's own fields: subclasses (only field_modulus overridden) of an instantiated class
+    # over another prime
+    dict(name="GF17sub7", p=17, d=1, mc=(0,), parent=7),
+    dict(name="GF13^2sub5", p=13, d=2, mc=(2, 0), parent=5),
     # quadratic, i^2 = -1 as in both curves
     dict(name="GF3^2", p=3, d=2, mc=(1, 0)), dict(name="GF7^2", p=7, d=2, mc=(1, 0)),
     dict(name="GF11^2", p=11, d=2, mc=(1, 0)),
@@ -42,6 +46,11 @@ CATALOGUE = [
     dict(name="GF19^12bls", p=19, d=12, mc=BLS_MC),   # raw negative coefficient, as in the library
     dict(name="GF83^12bn", p=83, d=12, mc=BN_MC),      # raw 82 / -18, as in the library
 ]
+
+
+for _f in CATALOGUE:
+    if _f.get("parent"):
+        toy.PARENTS[(_f["p"], _f["d"], tuple(_f["mc"]))] = _f["parent"]
 
 
 def spec_field(f):
@@ -158,9 +167,14 @@ def _rows_job(job):
                 r["r"] = pr(_safe(lambda: 1 / x))
             else:
                 r["r"] = pr(_safe(lambda: x.inv()))
-        elif op == "sgn0":
+        elif op in ("sgn0", "sgn0q"):
             r["a"] = o
-            x = mk(o)
+            if op == "sgn0q":       # the same element built from FQ-object coefficients (the classes accept IntOrFQ)
+                r["op"], r["via"] = "sgn0", "fq-object coefficients"
+                fq1 = toy.field_classes(p, 1, (0,), fam)
+                x = cls([fq1(c) for c in o]) if d in (2, 12) else cls([fq1(c) for c in o])
+            else:
+                x = mk(o)
             v = _safe(lambda: x.sgn0)
             r["r"] = v if isinstance(v, str) else int(v)
         elif op == "pow":
@@ -240,6 +254,8 @@ def build_tables(tier: str, seed: int, families=("ref", "opt"), log=lambda *a: N
             add("inv", el_un, 1, ex_un)
             if fam == "opt":
                 add("sgn0", el_un, 1, ex_un)
+                if d > 1:
+                    add("sgn0q", el_un[:600])
             add("pow", pow_ops)
             if ex_un and n <= (600 if quick else 5000):
                 add("pow", [(a, e) for a in el_un for e in (0, 1, 2, 3, n - 2, n - 1, n)])
